@@ -90,6 +90,8 @@ class Rewriter(ast.NodeTransformer):
     def visit_Call(self, node):
         self.generic_visit(node)
         f = node.func
+        if isinstance(f, ast.Name) and f.id == "super" and len(node.args) == 2 and not node.keywords:
+            return ast.copy_location(ast.Call(func=ast.Name(id="__symx_super__", ctx=ast.Load()), args=node.args, keywords=[]), node)
         if isinstance(f, ast.Attribute) and f.attr == "join" and len(node.args) == 1 and not node.keywords:
             return ast.copy_location(ast.Call(
                 func=ast.Name(id="__symx_join__", ctx=ast.Load()),
